@@ -196,6 +196,15 @@ func (x *Exec) loopHeader(fr *Frame, h *ssa.BasicBlock, ord int, pre *Node, st *
 	}
 	fr.loopHeadState[h] = cur.clone()
 	if spec != nil {
+		for _, inv := range spec.Assumed {
+			env := x.bodyEnv(fr, hd, cur, h)
+			f, err := x.trBool(inv.Expr, env)
+			if err != nil {
+				x.contractError(fr, inv, err)
+				continue
+			}
+			hd.assume(f)
+		}
 		for _, inv := range spec.Invariants {
 			env := x.bodyEnv(fr, hd, cur, h)
 			f, err := x.trBool(inv.Expr, env)
